@@ -27,6 +27,10 @@ structure World where
   desync : Option Json := none
   /-- files that were stashed while their INITIAL claims were still pending (reported, not used) -/
   pendingStash : List String := []
+  /-- per file: the commits (content, parent) made with re-indented lines `re` and those among them that the
+      commit's note does NOT list. Glue for `hum` of Model/Discard.lean: as of a history `log`, a line is in `hum`
+      when the newest commit of `log` that changed its whitespace form does not list it (git blame stops there). -/
+  wsTab : List (String × List ((List Nat × List Nat) × List Nat × List Nat)) := []
 
 def World.get (w : World) (p : String) : RState :=
   match w.files.find? (·.1 = p) with
@@ -40,6 +44,27 @@ def World.onPaths (w : World) (ps : List String) (f : RState → RState) : World
   w.mapFiles (fun p r => if p ∈ ps then f r else r)
 
 def World.all (w : World) (op : DOp) : World := w.mapFiles (fun _ r => dstep r op)
+
+def World.humAt (w : World) (p : String) (log : List (List Nat × List Nat)) : List Nat :=
+  let tab := match w.wsTab.find? (·.1 = p) with
+    | some x => x.2
+    | none => []
+  log.reverse.foldl (fun hum cp =>
+    match tab.find? (fun e => e.1 == cp) with
+    | some (_, re, unlisted) => hum.filter (fun y => !re.contains y) ++ unlisted
+    | none => hum) []
+
+/-- after a commit / amend of file `p` with the re-indented lines `re`: remember which of them the note lists -/
+def World.noteWs (w : World) (p : String) (re : List Nat) (st : State) : World :=
+  let note := st.notes.head?.getD []
+  let listed (y : Nat) : Bool := ((posOf y st.head).bind (noteAuthor note)).isSome
+  match st.log.head? with
+  | none => w
+  | some cp =>
+    let old := match w.wsTab.find? (·.1 = p) with
+      | some x => x.2
+      | none => []
+    { w with wsTab := (p, (cp, re, re.filter (fun y => !listed y)) :: old) :: w.wsTab.filter (·.1 ≠ p) }
 
 def strsOf (j : Json) : Except String (List String) := do
   (← j.getArr?).toList.mapM (·.getStr?)
@@ -109,8 +134,27 @@ def stepW (w : World) (j : Json) : Except String World := do
   | "hcp" => pure (w.hcp (← strsOf (← j.getObjVal? "named")))
   | "add" => pure (w.onPaths (← strsOf (← j.getObjVal? "paths")) (fun r => dstep r (.r (.base .stageAll))))
   | "addAll" => pure (w.all (.r (.base .stageAll)))
-  | "commit" => pure (w.all (.r (.base .commit)))
-  | "amend" => pure (w.all (.r .amend))
+  -- `re` (optional): per file, the ids git reports in another whitespace form than the older content holds
+  -- (Model/Discard.lean, whitespace-sensitive reading); a file without such a line takes the alphabet's step
+  | "commit" =>
+    let re := (j.getObjVal? "re").toOption.getD Json.null
+    w.files.foldlM (init := { w with files := [] }) (fun acc x => do
+      let r ← idsOfField re x.1
+      if r.isEmpty then pure { acc with files := acc.files ++ [(x.1, dstep x.2 (.r (.base .commit)))] }
+      else
+        let st' := commitStepWs r x.2.st
+        pure { (acc.noteWs x.1 r st') with files := acc.files ++ [(x.1, { x.2 with st := st' })] })
+  -- `ov` (optional, amend / reset): per file, the ids with an explicit human override in the working log
+  | "amend" =>
+    let re := (j.getObjVal? "re").toOption.getD Json.null
+    let ov := (j.getObjVal? "ov").toOption.getD Json.null
+    w.files.foldlM (init := { w with files := [] }) (fun acc x => do
+      let r ← idsOfField re x.1
+      let o ← idsOfField ov x.1
+      if r.isEmpty && o.isEmpty then pure { acc with files := acc.files ++ [(x.1, dstep x.2 (.r .amend))] }
+      else
+        let st' := amendStepWs r (acc.humAt x.1 x.2.st.log ++ o) x.2.st
+        pure { (acc.noteWs x.1 r st') with files := acc.files ++ [(x.1, { x.2 with st := st' })] })
   | "d" =>
     let ps ← strsOf (← j.getObjVal? "paths")
     let o ← (← j.getObjVal? "op").getStr?
@@ -132,7 +176,17 @@ def stepW (w : World) (j : Json) : Except String World := do
   | "unstageAll" => pure (w.all .unstageAll)
   | "resetHard" => pure (w.all (.resetHard (← getNatField j "n")))
   | "checkoutForceSame" => pure (w.all .checkoutForceSame)
-  | "reset" => pure (w.all (.r (.reset (← getNatField j "n") (← getBoolField j "soft"))))
+  | "reset" =>
+    let n ← getNatField j "n"
+    let soft ← getBoolField j "soft"
+    let re := (j.getObjVal? "re").toOption.getD Json.null
+    let ov := (j.getObjVal? "ov").toOption.getD Json.null
+    w.files.foldlM (init := { w with files := [] }) (fun acc x => do
+      let r ← idsOfField re x.1
+      let o ← idsOfField ov x.1
+      let x' := if r.isEmpty && o.isEmpty then dstep x.2 (.r (.reset n soft))
+        else { x.2 with st := resetStepWs n soft r (acc.humAt x.1 (x.2.st.log.drop n) ++ o) x.2.st }
+      pure { acc with files := acc.files ++ [(x.1, x')] })
   | "stashPush" =>
     let pend := (w.files.filter (fun x => !x.2.st.initial.isEmpty)).map (·.1)
     pure { (w.all (.r .stashPush)) with pendingStash := w.pendingStash ++ pend }
